@@ -15,7 +15,8 @@ import Mathlib.Tactic.NormNum
 
 Property theorems only.  Model: `M3d/Model/Sdf.lean` (transcribes `genericSDF` of `Sphere/Circle`, `Rect`,
 `Capsule`, `Cylinder`, `Cone`, `Torus`, `filledCircleDist`, `safeNormal`, `Segment.Closest`,
-`Triangle.Closest/Dist`, `meshSDF`, `profileSDF`, `profilePointSDF`, `colliderSDF`; the driver runs the very
+`Triangle.Closest/Dist`, `meshSDF`, `profileSDF`, `profilePointSDF`, `colliderSDF`, `TransformSDF`,
+`transformedCollider.SphereCollision` over `Translate`/`Scale`/`Rotation`/`JoinedTransform`; the driver runs the very
 same definitions at `Float` bit-for-bit against the Go code and at `ℚ`).  Helper lemmas: `M3d/Lemmas/Sdf*.lean`.
 
 Everything is proved for **every** linear ordered field `K` and every `E : Env K` with `E.Exact`
